@@ -173,15 +173,7 @@ theorem checkName_iff (s : String) : checkName s = true ↔ NameOk s := by
   | nil => simp
   | cons c rest =>
     have hr := reserved_iff (lower (c :: rest))
-    simp only [List.isEmpty_cons, lower, List.map_cons] at hr ⊢
-    simp only [Bool.false_eq_true, if_false, Bool.and_eq_true, Bool.not_eq_true', validFirst_lower]
-    have hall : (lowerChar c :: List.map lowerChar rest).all validCont = (c :: rest).all validCont := by
-      have : (lowerChar c :: List.map lowerChar rest) = (c :: rest).map lowerChar := rfl
-      rw [this, List.all_map]
-      congr 1
-      funext x
-      exact validCont_lower x
-    rw [hall]
+    simp only [Bool.and_eq_true, Bool.not_eq_true']
     constructor
     · rintro ⟨⟨⟨h1, h2⟩, h3⟩, h4⟩
       refine ⟨⟨c, rest, rfl, h1⟩, by simpa [List.all_eq_true] using h2, ?_⟩
@@ -190,7 +182,7 @@ theorem checkName_iff (s : String) : checkName s = true ↔ NameOk s := by
       simp [h3, h4] at this
     · rintro ⟨⟨c', rest', he, h1⟩, h2, h3⟩
       cases he
-      have hn : ¬ ((reservedWords.any fun w => w.toList == lowerChar c :: List.map lowerChar rest) || matchesPattern (lowerChar c :: List.map lowerChar rest)) = true :=
+      have hn : ¬ ((reservedWords.any fun w => w.toList == lower (c :: rest)) || matchesPattern (lower (c :: rest))) = true :=
         fun h => h3 (hr.mp h)
       simp only [Bool.or_eq_true, not_or, Bool.not_eq_true] at hn
       exact ⟨⟨⟨h1, by simpa [List.all_eq_true] using h2⟩, hn.1⟩, hn.2⟩
